@@ -336,6 +336,34 @@ def t_neg_window_access(r):
     return _proc("foo", ["x: R[8]", "y: R[8]"], [], body)
 
 
+def t_callee_loop(r):
+    """callee whose own loop / allocation needs its assertion: safe at every call that satisfies the assertion"""
+    c = r.choice([2, 3])
+    inner = r.choice(["for i in seq(%d, n):\n        dst[i] = 0.0" % c, "t: R[n - %d]\n    dst[0] = 0.0" % (c - 1),
+                      "dst[%d] = 0.0" % (c - 1)])
+    sub = "@proc\ndef sub(n: size, dst: [R][n]):\n    assert n >= %d\n    %s\n" % (c, inner)
+    arg = r.choice([8, c, c - 1])
+    return sub + "\n" + _proc("foo", ["x: R[8]"], [], ["sub(%d, x[0:%d])" % (arg, arg)])
+
+
+def t_extern(r):
+    """reads inside the arguments of externs"""
+    j = r.choice([0, 7, 8, 100, -1])
+    e = r.choice(["relu(y[%s])" % j, "select(y[0], y[1], y[%s], y[2])" % j, "relu(y[i + %d])" % r.choice([0, 1, 4])])
+    return _proc("foo", ["x: R[8]", "y: R[8]"], [], ["for i in seq(0, 4):", "    x[i] = %s" % e])
+
+
+def t_alias_by_name(r):
+    """a window alias passed BY NAME to a callee that touches its last element"""
+    M = r.choice([2, 4])
+    sub = _proc("sub", ["dst: [R][%d]" % M], [], ["dst[%d] = 1.0" % (M - 1)])
+    a = r.choice([0, 8 - M, 8 - M + 1, 7])
+    body = ["w = x[%d:%d]" % (a, a + M), "sub(w)"]
+    if r.random() < 0.3:
+        body = ["w = x[%d:%d]" % (a, a + M), "v = w[0:%d]" % M, "sub(v)"]
+    return sub + "\n" + _proc("foo", ["x: R[8]"], [], body)
+
+
 TEMPLATES = [
     ("offset", t_offset, 4), ("trip", t_trip, 3), ("alloc", t_alloc, 3), ("call-size", t_call_size, 3),
     ("call-const-window", t_call_const_window, 3), ("call-assert", t_call_assert, 3), ("alias", t_alias, 2),
@@ -344,6 +372,7 @@ TEMPLATES = [
     ("guard", t_guard, 2), ("divmod", t_divmod, 2), ("divmod-sym", t_divmod_sym, 1), ("index-arg", t_index_arg, 2),
     ("bool-guard", t_bool_guard, 1), ("nested-call", t_nested_call, 3), ("call-tensor-whole", t_call_tensor_whole, 2),
     ("config", t_config, 1), ("instr", t_instr, 1), ("stride", t_stride, 1), ("neg-window", t_neg_window_access, 1),
+    ("callee-loop", t_callee_loop, 2), ("extern", t_extern, 2), ("alias-by-name", t_alias_by_name, 2),
 ]
 
 
